@@ -48,20 +48,24 @@ Qed.
 (* ---------- qvalues: the model reads every RFC qvalue as its value in thousandths ---------- *)
 Definition q_fact (e : bytes * N) : bool :=
   match parse_quality (Some (bs "q=" ++ fst e)) with QThousandths n => n =? snd e | QUnspec => false end
+  && match parse_quality (Some (bs "Q=" ++ fst e)) with QThousandths n => n =? snd e | QUnspec => false end
   && lacks ";"%byte (fst e) && lacks ","%byte (fst e) && forallb vis (fst e).
 Lemma qvalues_facts : forallb q_fact qvalues = true.
 Proof. vm_compute. reflexivity. Qed.
 
 Lemma qvalue_facts q n : qvalue_of q = Some n ->
-  parse_quality (Some (bs "q=" ++ q)) = QThousandths n /\ lacks ";"%byte q = true /\ lacks ","%byte q = true
+  parse_quality (Some (bs "q=" ++ q)) = QThousandths n /\ parse_quality (Some (bs "Q=" ++ q)) = QThousandths n
+  /\ lacks ";"%byte q = true /\ lacks ","%byte q = true
   /\ forallb vis q = true.
 Proof.
   unfold qvalue_of. destruct (find _ qvalues) as [e|] eqn:F; [|discriminate]. cbn [option_map]. intros [= <-].
   apply find_some in F as [Hin He]. apply bytes_eqb_eq in He. subst q.
   pose proof qvalues_facts as Q. rewrite forallb_forall in Q. specialize (Q e Hin).
-  unfold q_fact in Q. apply andb_true_iff in Q as [Q Q4]. apply andb_true_iff in Q as [Q Q3]. apply andb_true_iff in Q as [Q1 Q2].
+  unfold q_fact in Q. apply andb_true_iff in Q as [Q Q4]. apply andb_true_iff in Q as [Q Q3]. apply andb_true_iff in Q as [Q Q2].
+  apply andb_true_iff in Q as [Q1 Q1'].
   repeat split; try assumption.
-  destruct (parse_quality _); [|discriminate]. apply N.eqb_eq in Q1. now subst.
+  - destruct (parse_quality (Some (bs "q=" ++ fst e))); [|discriminate]. apply N.eqb_eq in Q1. now subst.
+  - destruct (parse_quality (Some (bs "Q=" ++ fst e))); [|discriminate]. apply N.eqb_eq in Q1'. now subst.
 Qed.
 
 (* ---------- characters of a language-range ---------- *)
@@ -137,8 +141,6 @@ Proof.
 Qed.
 
 (* ---------- one list element ---------- *)
-Definition item_tidy (i : lang_item) : bool :=   (* not in the finding class: the literal is "q=" *)
-  negb (li_qupper i && match li_weight i with Some _ => true | None => false end).
 Definition entry_spec (i : lang_item) : option (qres * bytes) :=
   match language_name (ascii_lower (primary_subtag (li_tag i))) with
   | Some n => Some (QThousandths (item_weight i), n)
@@ -156,40 +158,44 @@ Qed.
 Lemma parse_quality_trim p p' : trim p = trim p' -> parse_quality (Some p) = parse_quality (Some p').
 Proof. intros H. unfold parse_quality. now rewrite H. Qed.
 
-Lemma lang_entry_item i : item_ok i = true -> item_tidy i = true ->
+Lemma lang_entry_item i : item_ok i = true ->
   lang_entry (render_item i) = entry_spec i /\ lacks ","%byte (render_item i) = true.
 Proof.
-  unfold item_ok, item_tidy. intros Hok Ht.
+  unfold item_ok. intros Hok.
   apply andb_true_iff in Hok as [Hok Hw]. apply andb_true_iff in Hok as [Hok Htag].
-  apply andb_true_iff in Hok as [Hpre Hpost]. apply negb_true_iff in Ht.
+  apply andb_true_iff in Hok as [Hpre Hpost].
   destruct (tag_ok_chars _ Htag) as [Hc Hne]. destruct (tagc_all _ Hc) as (Vt & St & Ct).
   assert (Look : lang_lookup (lower_ascii (before_byte "-"%byte (li_tag i))) = language_name (ascii_lower (primary_subtag (li_tag i)))).
   { rewrite lookup_agree. reflexivity. }
   unfold lang_entry, entry_spec, render_item, item_weight.
   destruct (li_weight i) as [[[o1 o2] q]|].
-  - rewrite andb_true_r in Ht. rewrite Ht.
-    apply andb_true_iff in Hw as [Hw Hq]. apply andb_true_iff in Hw as [Ho1 Ho2].
+  - apply andb_true_iff in Hw as [Hw Hq]. apply andb_true_iff in Hw as [Ho1 Ho2].
     destruct (qvalue_of q) as [n|] eqn:Q; [|discriminate].
-    destruct (qvalue_facts _ _ Q) as (PQ & Sq & Cq & Vq).
-    assert (Vl : forallb vis (bs "q=" ++ q) = true) by (rewrite forallb_app, Vq; reflexivity).
+    destruct (qvalue_facts _ _ Q) as (PQ & PQ' & Sq & Cq & Vq).
+    set (lit := if li_qupper i then _ else _).
+    assert (Fl : forallb vis lit = true /\ lacks ";"%byte lit = true /\ lacks ","%byte lit = true /\
+                 parse_quality (Some (lit ++ q)) = QThousandths n).
+    { unfold lit. destruct (li_qupper i); repeat split; try reflexivity; assumption. }
+    destruct Fl as (Vlit & Slit & Clit & Plit).
+    assert (Vl : forallb vis (lit ++ q) = true) by (now rewrite forallb_app, Vq, Vlit).
     split.
-    + assert (R : li_pre i ++ li_tag i ++ (o1 ++ ";"%byte :: o2 ++ bs "q=" ++ q) ++ li_post i
-                  = (li_pre i ++ li_tag i ++ o1) ++ ";"%byte :: (o2 ++ (bs "q=" ++ q) ++ li_post i))
+    + assert (R : li_pre i ++ li_tag i ++ (o1 ++ ";"%byte :: o2 ++ lit ++ q) ++ li_post i
+                  = (li_pre i ++ li_tag i ++ o1) ++ ";"%byte :: (o2 ++ (lit ++ q) ++ li_post i))
         by (rewrite <- !app_assoc; cbn [app]; rewrite <- !app_assoc; reflexivity).
       rewrite R. clear R.
       rewrite split_byte_app.
       2:{ rewrite !lacks_app, St, (ows_lacks _ _ Hpre), (ows_lacks _ _ Ho1); reflexivity. }
       rewrite split_byte_lacks.
-      2:{ rewrite !lacks_app, Sq, (ows_lacks _ _ Ho2), (ows_lacks _ _ Hpost); reflexivity. }
+      2:{ rewrite !lacks_app, Sq, Slit, (ows_lacks _ _ Ho2), (ows_lacks _ _ Hpost); reflexivity. }
       cbn [hd nth_error]. rewrite trim_tag by assumption.
       destruct (li_tag i) eqn:Et; [congruence|]. cbn [bytes_eqb]. rewrite <- Et in *.
       rewrite hd_split_byte, Look. destruct (language_name _); [|reflexivity]. f_equal. f_equal.
-      rewrite <- PQ. apply parse_quality_trim. rewrite trim_tag by assumption. symmetry. now apply trim_vis.
-    + assert (R : li_pre i ++ li_tag i ++ (o1 ++ ";"%byte :: o2 ++ bs "q=" ++ q) ++ li_post i
-                  = li_pre i ++ li_tag i ++ o1 ++ [";"%byte] ++ o2 ++ bs "q=" ++ q ++ li_post i)
+      rewrite <- Plit. apply parse_quality_trim. rewrite trim_tag by assumption. symmetry. now apply trim_vis.
+    + assert (R : li_pre i ++ li_tag i ++ (o1 ++ ";"%byte :: o2 ++ lit ++ q) ++ li_post i
+                  = li_pre i ++ li_tag i ++ o1 ++ [";"%byte] ++ o2 ++ lit ++ q ++ li_post i)
         by (rewrite <- !app_assoc; cbn [app]; rewrite <- !app_assoc; reflexivity).
       rewrite R. clear R.
-      rewrite !lacks_app, (ows_lacks _ _ Hpre), Ct, (ows_lacks _ _ Ho1), (ows_lacks _ _ Ho2), Cq, (ows_lacks _ _ Hpost) by reflexivity.
+      rewrite !lacks_app, (ows_lacks _ _ Hpre), Ct, (ows_lacks _ _ Ho1), (ows_lacks _ _ Ho2), Clit, Cq, (ows_lacks _ _ Hpost) by reflexivity.
       reflexivity.
   - split.
     + cbn [app].
@@ -270,28 +276,16 @@ Proof.
     unfold first_best. replace (N.max q (best_weight r)) with (best_weight r) by lia. reflexivity.
 Qed.
 
-Definition items_tidy (items : list lang_item) : bool := forallb item_tidy items.
-
-Lemma tidy_of_known items : known_upper_q items = false -> items_tidy items = true.
-Proof.
-  unfold known_upper_q, items_tidy. intros H. apply forallb_forall. intros i Hi. unfold item_tidy.
-  apply negb_true_iff.
-  destruct (li_qupper i && match li_weight i with Some _ => true | None => false end) eqn:E; [|reflexivity]. exfalso.
-  assert (X : existsb (fun i => li_qupper i && match li_weight i with Some _ => true | None => false end) items = true).
-  { apply existsb_exists. exists i. now split. }
-  rewrite X in H. discriminate.
-Qed.
-
 Theorem lang_is_argmax_first items :
-  items_ok items = true -> known_upper_q items = false ->
+  items_ok items = true ->
   get_highest_quality_language (render_value (VLang items)) = spec_lang items.
 Proof.
-  intros Hok K1. pose proof (tidy_of_known _ K1) as Ht.
+  intros Hok.
   unfold items_ok in Hok. apply andb_true_iff in Hok as [Hok _]. apply andb_true_iff in Hok as [Hok _].
   unfold get_highest_quality_language. cbn [render_value].
   destruct items as [|i0 items0] eqn:Ei; [reflexivity|]. rewrite <- Ei in *.
   assert (A : Forall (fun i => lang_entry (render_item i) = entry_spec i /\ lacks ","%byte (render_item i) = true) items).
-  { apply Forall_forall. intros i Hi. unfold items_tidy in Ht. rewrite forallb_forall in Hok, Ht.
+  { apply Forall_forall. intros i Hi. rewrite forallb_forall in Hok.
     apply lang_entry_item; auto. }
   rewrite split_sep_concat.
   - rewrite map_map.
